@@ -10,7 +10,7 @@
 import hashlib, json, os, re, struct, subprocess, sys, time, random, shutil
 
 VERIF = os.path.dirname(os.path.dirname(os.path.abspath(__file__)))
-REPO = "/repo"
+REPO = os.environ.get("VERIF_REPO", "/repo")   # a scratch worktree may be substituted for experiments
 BUILD = os.path.join(VERIF, "build")
 TARGET = os.path.join(BUILD, "target")
 SCRATCH = os.path.join(BUILD, "scratch")
@@ -75,12 +75,36 @@ def hygiene():
     return bad
 
 
+COQPROJECT_HEAD = """-Q theories Ink
+-arg -w -arg -notation-overridden,-deprecated-hint-without-locality,-deprecated-instance-without-locality,-ambiguous-paths
+"""
+
+
+def refresh_coqproject():
+    """_CoqProject lists every theories/**/*.v (sorted); Makefile.coq is regenerated only when
+    that list changes, so concurrent builds do not trample each other."""
+    files = []
+    for root, _, fs in os.walk(os.path.join(VERIF, "theories")):
+        for f in fs:
+            if f.endswith(".v") and not f.startswith("."):
+                files.append(os.path.relpath(os.path.join(root, f), VERIF))
+    content = COQPROJECT_HEAD + "\n".join(sorted(files)) + "\n"
+    p = os.path.join(VERIF, "_CoqProject")
+    old = open(p).read() if os.path.exists(p) else None
+    if old != content or not os.path.exists(os.path.join(VERIF, "Makefile.coq")):
+        tmp = p + ".tmp%d" % os.getpid()
+        with open(tmp, "w") as f:
+            f.write(content)
+        os.replace(tmp, p)
+        rc, o, e = sh(["coq_makefile", "-f", "_CoqProject", "-o", "Makefile.coq"], cwd=VERIF)
+        if rc != 0:
+            raise RuntimeError("coq_makefile failed: " + o + e)
+
+
 def coq_make(targets=None, timeout=1500):
-    """Full .vo build (never -vos).  Returns (ok, log)."""
-    mk = os.path.join(VERIF, "Makefile.coq")
-    rc, o, e = sh(["coq_makefile", "-f", "_CoqProject", "-o", "Makefile.coq"], cwd=VERIF)
-    if rc != 0:
-        return False, o + e
+    """Full .vo build (never -vos).  Returns (ok, log).  With targets, only those .vo files and
+    their dependencies are (re)built."""
+    refresh_coqproject()
     cmd = ["make", "-f", "Makefile.coq", f"-j{NPROC}"]
     if targets:
         cmd += targets
@@ -224,12 +248,36 @@ def harness_env():
             "CARGO_NET_OFFLINE": "true"}
 
 
-def build_harness(features=(), release=False, timeout=900):
-    """(Re)build the harness against /repo's working tree.  Returns path of inkdrive."""
-    hd = os.path.join(VERIF, "harness")
+def _repo_tag():
+    return "" if REPO == "/repo" else "_" + hashlib.sha1(REPO.encode()).hexdigest()[:8]
+
+
+def harness_dir():
+    """The harness crate has path dependencies on the repository; for a substituted repository a
+    copy with rewritten paths is kept under build/."""
+    src = os.path.join(VERIF, "harness")
+    if REPO == "/repo":
+        return src
+    dst = os.path.join(BUILD, "harness" + _repo_tag())
+    os.makedirs(os.path.join(dst, "src", "bin"), exist_ok=True)
+    os.makedirs(os.path.join(dst, ".cargo"), exist_ok=True)
+    for rel in ["Cargo.toml", ".cargo/config.toml"] + [os.path.join("src", "bin", f) for f in os.listdir(os.path.join(src, "src", "bin"))]:
+        txt = open(os.path.join(src, rel)).read()
+        if rel == "Cargo.toml":
+            txt = txt.replace('"/repo/', '"' + REPO.rstrip("/") + "/")
+        old = open(os.path.join(dst, rel)).read() if os.path.exists(os.path.join(dst, rel)) else None
+        if old != txt:
+            with open(os.path.join(dst, rel), "w") as f:
+                f.write(txt)
+    return dst
+
+
+def build_harness(features=(), release=False, timeout=900, binname="inkdrive"):
+    """(Re)build the harness against the repository's working tree.  Returns path of the binary."""
+    hd = harness_dir()
     shutil.copyfile(os.path.join(REPO, "Cargo.lock"), os.path.join(hd, "Cargo.lock"))
     env = harness_env()
-    tdir = TARGET + ("_" + "_".join(features) if features else "")
+    tdir = TARGET + _repo_tag() + ("_" + "_".join(features) if features else "")
     env["CARGO_TARGET_DIR"] = tdir
     cmd = ["cargo", "build", "--offline", "--bins"]
     if release:
@@ -239,13 +287,13 @@ def build_harness(features=(), release=False, timeout=900):
     rc, o, e = sh(cmd, cwd=hd, env=env, timeout=timeout)
     if rc != 0:
         raise RuntimeError("harness build failed:\n" + e[-4000:])
-    return os.path.join(tdir, "release" if release else "debug", "inkdrive")
+    return os.path.join(tdir, "release" if release else "debug", binname)
 
 
 def build_repo_bin(package, binname, release=False, timeout=900):
     """Build a binary of /repo itself (e.g. rinklecate) into our target dir."""
     env = harness_env()
-    env["CARGO_TARGET_DIR"] = TARGET + "_repo"
+    env["CARGO_TARGET_DIR"] = TARGET + _repo_tag() + "_repo"
     env["RUSTFLAGS"] = ""
     cmd = ["cargo", "build", "--offline", "-p", package, "--bin", binname]
     if release:
